@@ -15,6 +15,9 @@ Template language (a `.vt.rs` file is Rust text with directive lines starting wi
   //@body   (inside an extract block: ghost text inserted right after the opening brace of the function body)
   //@extract file=<repo-relative path> [impl=<substring of impl header>] fn=<name> [as=<label>]
   //@extract file=... const=<NAME> | macro=<name> | struct=<Name> | enum=<Name>
+  //@extract file=... macro=<name> arm=<k>   the `fn` item inside the k-th arm (1-based) of that macro_rules
+      definition, as an fn item: the arm's meta-variables are then instantiated by declared substitutions
+      (`//@subst /\$method/ => deserialize_i64 #all`), which is exactly what the macro expander does with them
       directive lines that may follow an `//@extract ... fn=`:
   //@sig                       following lines (until next //@) inserted between signature and `{`
   //@loop <k>                  following lines inserted before the body `{` of the k-th loop (1-based,
@@ -42,6 +45,12 @@ MARK_R = "/*@>*/"
 
 class AnchorLost(Exception):
     pass
+
+
+class ArmForwards(Exception):
+    """the macro arm holds no fn item: its body text is carried here"""
+    def __init__(self, body):
+        self.body = body
 
 
 # ----------------------------------------------------------------------------------------------
@@ -331,12 +340,56 @@ def find_items(src, file):
     return items
 
 
-def extract(repo, file, kind, name, impl=None, nth=1):
+def macro_arm_fn(it, src, file, arm):
+    """The fn item inside the arm-th arm `( matcher ) => { body }` of a macro_rules item."""
+    toks_all = lex(src)
+    ct = [t for t in code_tokens(src, toks_all) if it.start <= t[1] < it.end]
+    # macro_rules ! name { arms }
+    j = next(i for i, (k, s, e) in enumerate(ct) if k == "punct" and src[s] in "{(" and i >= 3)
+    close = match_brace(src, ct, j)
+    arms = []
+    h = j + 1
+    while h < close:
+        if ct[h][0] == "punct" and src[ct[h][1]] in "([{":
+            mclose = match_brace(src, ct, h)
+            # => then body group
+            b = mclose + 1
+            while not (ct[b][0] == "punct" and src[ct[b][1]] in "{(["):
+                b += 1
+            bclose = match_brace(src, ct, b)
+            arms.append((b, bclose))
+            h = bclose + 1
+            continue
+        h += 1
+    if len(arms) < arm:
+        raise AnchorLost(f"macro {it.name} has no arm {arm} in {file}")
+    b, bclose = arms[arm - 1]
+    f = next((i for i in range(b + 1, bclose) if ct[i][0] == "ident" and src[ct[i][1]:ct[i][2]] == "fn"), None)
+    if f is None:
+        raise ArmForwards(src[ct[b][2]:ct[bclose][1]])
+    h = f
+    while h < bclose and not (ct[h][0] == "punct" and src[ct[h][1]] == "{"):
+        if ct[h][0] == "punct" and src[ct[h][1]] in "([":
+            h = match_brace(src, ct, h)
+        h += 1
+    if h >= bclose:
+        raise AnchorLost(f"macro {it.name} arm {arm}: fn without a body in {file}")
+    fclose = match_brace(src, ct, h)
+    st = src.rfind("\n", 0, ct[f][1]) + 1
+    if src[st:ct[f][1]].strip() != "":
+        st = ct[f][1]
+    return Item(file, src, st, ct[fclose][2], ct[h][1], "fn", f"{it.name}!arm{arm}")
+
+
+def extract(repo, file, kind, name, impl=None, nth=1, arm=None):
     path = os.path.join(repo, file)
     try:
         src = open(path, encoding="utf-8").read()
     except FileNotFoundError:
         raise AnchorLost(f"file {file} missing")
+    if kind == "macro" and arm is not None:
+        it = extract(repo, file, kind, name, impl, nth)
+        return macro_arm_fn(it, src, file, int(arm))
     kinds = {"fn": ("fn",), "const": ("const",), "macro": ("macro",), "struct": ("struct",),
              "enum": ("enum",), "trait": ("trait",), "fndecl": ("fndecl",)}[kind]
     found = []
@@ -688,7 +741,23 @@ def build_unit(template_path, repo, verif_root, probe=False):
             if op == "extract":
                 kv = _kv(rest)
                 kind = next(k for k in ("fn", "const", "macro", "struct", "enum", "trait") if k in kv)
-                it = extract(repo, kv["file"], kind, kv[kind], kv.get("impl"), int(kv.get("nth", "1")))
+                try:
+                    it = extract(repo, kv["file"], kind, kv[kind], kv.get("impl"), int(kv.get("nth", "1")), kv.get("arm"))
+                except ArmForwards as af:
+                    # the arm has no fn of its own: accepted only when it is literally the declared forwarding
+                    # invocation (then the arm it forwards to carries the contract); its directive block is skipped
+                    norm = lambda t: re.sub(r"\s+", " ", t).strip()
+                    if "fwd" not in kv or norm(af.body) != norm(kv["fwd"]):
+                        raise AnchorLost(f"macro {kv[kind]} arm {kv.get('arm')} holds no fn and is not the declared forwarding in {kv['file']}")
+                    i += 1
+                    while i < len(lines) and not (_dir.match(lines[i]) and _dir.match(lines[i]).group(1) == "end"):
+                        i += 1
+                    i += 1
+                    out.append(f"    // macro {kv[kind]} arm {kv['arm']} forwards: {norm(af.body)}")
+                    log.append(f"macro {kv[kind]} arm {kv['arm']}: forwarding arm `{norm(af.body)}` (no fn; block skipped)")
+                    continue
+                if kind == "macro" and "arm" in kv:
+                    kind = "fn"
                 dirs = []
                 i += 1
                 cur = None
